@@ -152,6 +152,28 @@ fn hand_scn(rng: &mut Rng) -> Scn {
     Scn { world, tx, note: format!("hand in={n_in} dep={n_dep} risky={risky_pm}") }
 }
 
+/// Deterministic witnesses of the known finding (CALL reads the callee's code size before the input
+/// check): a script calling (0) a deployed contract that is not listed, (1) an id that is not deployed.
+fn witness_scn(which: usize) -> Scn {
+    let base = AssetId::from([0x11; 32]);
+    let mut world = World::new(GasSchedule::Default, 9, vec![base]);
+    let listed = ContractId::from([0xA1; 32]); let unlisted = ContractId::from([0xB2; 32]); let undeployed = ContractId::from([0xC3; 32]);
+    let ret = words_to_bytes(&[u32::from_be_bytes(op::ret(RegId::ONE).into())]);
+    world.deploy(ContractDef { id: listed, code: ret.clone(), balances: vec![], slots: vec![] });
+    world.deploy(ContractDef { id: unlisted, code: [ret.clone(), vec![0u8; 4 * 97]].concat(), balances: vec![], slots: vec![] });
+    let mut data = vec![];
+    data.extend(Call::new(if which == 0 { unlisted } else { undeployed }, 0, 0).to_bytes());
+    let asset_off = data.len(); data.extend_from_slice(base.as_ref());
+    let mut items = vec![Asm::I(op::gtf(R_DATA, 0u8, GTFArgs::ScriptData as u16))];
+    addr(&mut items, T[0], 0); addr(&mut items, T[2], asset_off);
+    items.push(Asm::I(op::call(T[0], RegId::ZERO, T[2], RegId::CGAS)));
+    items.push(Asm::I(op::ret(RegId::ONE)));
+    let mut tx = TxSpec::new(words_to_bytes(&assemble(&items).expect("assemble")), data, 1_000_000);
+    tx.coins.push((base, 1000));
+    tx.contract_inputs = vec![listed];
+    Scn { world, tx, note: format!("hand witness call-{}", if which == 0 { "deployed-not-listed" } else { "undeployed" }) }
+}
+
 fn generated_scn(rng: &mut Rng) -> Scn {
     let mut cfg = GenCfg::default();
     cfg.n_contracts = rng.range(1, 3) as usize;
@@ -333,6 +355,11 @@ fn process_tx(out: &mut Out, s: &Scn, idx: usize) {
         Ok(Err(e)) => { out.count("build-error"); if out.notes.len() < 3 { out.notes.push(format!("tx {idx}: {e}")); } return; }
         Err(p) => { out.oracle_fail("host-panic", &format!("tx {idx}: host panic {p}"), replay); return; }
     };
+    // the same transaction through vmtrace::trace: the two steppers must agree
+    match guarded(|| trace(&s.world, &s.tx, &TraceOpts { max_steps: 20_000, mem_diff: false, storage: true, frames: false })) {
+        Ok(Ok(t)) => { let d = cross_check(&t, &r); if !d.is_empty() { out.count("probe-differs-from-vmtrace"); if out.notes.len() < 5 { out.notes.push(format!("tx {idx}: probe vs vmtrace::trace: {d:?}")); } } else { out.count("probe-agrees-with-vmtrace"); } }
+        _ => out.count("vmtrace-trace-failed"),
+    }
     let (foreign, refusals) = oracle_tx(out, s, &r, &replay);
     let mut ops: BTreeMap<String, u64> = BTreeMap::new();
     let mut touches = 0u64;
@@ -402,8 +429,9 @@ fn main() {
     } else {
         let mut rng = Rng::new(args.seed ^ 0x30);
         process_predicates(&mut out, &mut rng);
-        let n_hand = args.scale(140, 4000);
-        let n_gen = args.scale(50, 1500);
+        for w in 0..2 { let s = witness_scn(w); process_tx(&mut out, &s, w); }
+        let n_hand = args.scale(140, 2000);
+        let n_gen = args.scale(50, 600);
         for i in 0..n_hand { let s = hand_scn(&mut rng); process_tx(&mut out, &s, i); }
         for i in 0..n_gen { let s = generated_scn(&mut rng); process_tx(&mut out, &s, n_hand + i); }
     }
